@@ -13,6 +13,8 @@ struct GValue {
     bool SetCharAndLength(const char *&key, Qentem::SizeT &length) const noexcept;
     const GValue *GetValue(const char *key, Qentem::SizeT length) const noexcept;
     bool IsString() const noexcept;
+    template <typename S, typename F = void(S, const char *, Qentem::SizeT)>
+    bool CopyValueTo(S &stream, const Qentem::Digit::RealFormatInfo format = {}, F *string_function = nullptr) const;
     Qentem::SizeT Length() const noexcept;
 };
 }
